@@ -466,7 +466,8 @@ func c22RunW(cs *c22WCase) (sig, what string, falses int) {
 
 // ---- the check --------------------------------------------------------------------------------------------------------
 
-func c22Scenarios(r *vrt.R) []mcx.Scenario {
+// c22Scenarios lists the scenarios of the tier (th: thorough; replays use the thorough list, which contains every name).
+func c22Scenarios(r *vrt.R, th bool) []mcx.Scenario {
 	b := vrt.Pick(r, 2, 3)
 	var scs []mcx.Scenario
 	add := func(name string, bound int, body func(), check func(x *mcrt.Exec) (string, string, string)) {
@@ -481,7 +482,6 @@ func c22Scenarios(r *vrt.R) []mcx.Scenario {
 		}
 		scs = append(scs, mcx.Scenario{Name: name, Cfg: mcrt.Config{Bound: bound, Horizon: 20000}, Body: body, Check: timed})
 	}
-	th := r.Thorough()
 	// B1: fresh wrapper
 	for _, cp := range []int{1, 2} {
 		add(fmt.Sprintf("newfunc/cap%d/3callers", cp), b, c22NewFuncBody(cp, 3, 1, true), c22NewFuncCheck)
@@ -505,7 +505,9 @@ func c22Scenarios(r *vrt.R) []mcx.Scenario {
 			ab = b
 		}
 		add(fmt.Sprintf("codec/%s/append/cap1/3callers", cd.Name), ab, c22CodecBody(1, same(ci, 0, 3), false), c22CodecCheck)
-		add(fmt.Sprintf("codec/%s/write-buffer/cap2/3callers", cd.Name), vrt.Pick(r, 1, 2), c22CodecBody(2, same(ci, 1, 3), true), c22CodecCheck)
+		if th || ci == 0 || ci == 2 { // quick tier: gzip and br (the code of the four wrappers is the same)
+			add(fmt.Sprintf("codec/%s/write-buffer/cap2/3callers", cd.Name), vrt.Pick(r, 1, 2), c22CodecBody(2, same(ci, 1, 3), true), c22CodecCheck)
+		}
 		add(fmt.Sprintf("codec/%s/write-io.Writer/cap1/2callers", cd.Name), vrt.Pick(r, 1, 3), c22CodecBody(1, same(ci, 3, 2), false), c22CodecCheck)
 	}
 	// all stackless writers share one queue whatever the codec; Append* queues are per codec
@@ -515,11 +517,10 @@ func c22Scenarios(r *vrt.R) []mcx.Scenario {
 	add("codec/gzip/append-twice/cap1/2callers", b, c22CodecBody(1, [][][2]int{{{0, 0}, {0, 0}}, {{0, 0}, {0, 0}}}, true), c22CodecCheck)
 	add("codec/gzip/write-io.Writer-twice/cap1/2callers", vrt.Pick(r, 0, 1), c22CodecBody(1, [][][2]int{{{0, 3}, {0, 3}}, {{0, 3}, {0, 3}}}, false), c22CodecCheck)
 	// B3: what a client of CompressHandler sees
-	add("handler/buffered/cap1/2requests", b, c22HandlerLoadBody(1, []int{0, 0}, true), c22HandlerLoadCheck)
+	add("handler/buffered/cap1/2requests", vrt.Pick(r, 1, 3), c22HandlerLoadBody(1, []int{0, 0}, true), c22HandlerLoadCheck)
 	add("handler/buffered/cap1/3requests", vrt.Pick(r, 0, 1), c22HandlerLoadBody(1, []int{0, 0, 0}, false), c22HandlerLoadCheck)
 	add("handler/stream+codec-call/cap1", vrt.Pick(r, 0, 1), c22HandlerLoadBody(1, []int{1, 2}, false), c22HandlerLoadCheck)
 	// (two concurrent stream responses: > 9e5 executions at bound 0 without completing it -- not included)
-	_ = th
 	r.Set("preemption_bound", fmt.Sprint(b))
 	if only := os.Getenv("C22_ONLY"); only != "" { // development aid: restrict to scenarios whose name contains the value
 		var f []mcx.Scenario
@@ -626,7 +627,7 @@ func TestVerif_C22(t *testing.T) {
 			c22RunWitness(r, &cs)
 			r.Eval(1)
 		default:
-			mcx.Run(r, c22Scenarios(r))
+			mcx.Run(r, c22Scenarios(r, true))
 		}
 		return
 	}
@@ -642,7 +643,7 @@ func TestVerif_C22(t *testing.T) {
 	if os.Getenv("C22_ONLY") != "" || os.Getenv("C22_SKIP_SEQ") != "" {
 		r.NotExhaustive("development switches C22_ONLY / C22_SKIP_SEQ are set: only part of the check ran")
 	}
-	scs := c22Scenarios(r)
+	scs := c22Scenarios(r, r.Thorough())
 	// The sequential cases and the witnesses are sharded over the same worker processes mcx uses for the scenarios
 	// (one controlled execution at a time per process). The parent process only forks and merges.
 	k, n := 0, 1
